@@ -95,6 +95,10 @@ def sweep_calls(v):
     for rx in ('', 'a*', '(?=a)', '.', '$', '^', 'a|', '\\b'):
         c.append(('format_matching', [rx, AnsiSetting('32')], {'regex': True}))
         c.append(('unformat_matching', [rx], {'regex': True, 'count': 1}))
+    for cnt in (None, 'x', 1.5):      # a count of the wrong type: nothing may be applied before the error
+        c.append(('format_matching', ['a', AnsiSetting('32')], {'count': cnt}))
+        c.append(('unformat_matching', ['a'], {'count': cnt}))
+        c.append(('format_matching', [t[:1] or 'a', AnsiSetting('32')], {'count': cnt, 'regex': True}))
     for n in (0, 1, -1, 10 ** 4, 'x', None):
         c.append(('expandtabs', [n], {}))
         c.append(('expandtabs', [n], {'inplace': True}))
@@ -358,6 +362,9 @@ def mut_alphabet(v, seed):
     ops.append(['icat', ['lit', '']])
     ops.append(['icat', ['ctor', 'z', R['R']]])
     ops.append(['icat', ['ctor', 'zy', R['W']]])
+    ops.append(['icat', ['ctor', 'zq', R['q']]])          # an operand with a verbatim two-group setting (not parsable)
+    ops.append(['apply', R['q'], 0, 1, True])
+    ops.append(['apply', R['S'], 0, max(1, L - 1), True])  # a font that stops while text follows
     ops.append(['iselfcat'])
     for (i, j) in ((1, None), (None, -1), (0, 0), (1, 1), (-1, None), (0, L + 3)):
         ops.append(['clip', i, j, True])
@@ -418,7 +425,10 @@ def sweep_pool(tier, seed):
           [['plain', 'abc'], ['apply', R['R'], 0, 2, True], ['apply', R['W'], 1, 3, True]],
           [['plain', 'abc'], ['apply', R['R'], 0, 3, True], ['apply', R['R'], 1, 2, True]],
           [['plain', ' a '], ['apply', R['B'], 0, 3, True]], [['plain', 'ab'], ['apply', '[xm', 0, 1, True]],
-          [['parse', '\x1b[1ma\x1b[2Jb\x1b[mc']]]
+          [['parse', '\x1b[1ma\x1b[2Jb\x1b[mc']],
+          # the less common effect groups, each stopping while text follows (font, frame, overline, spacing, blink ...)
+          [['plain', 'abcd'], ['apply', R['S'], 0, 2, True], ['apply', R['E'], 1, 3, True], ['apply', R['O'], 0, 1, True],
+           ['apply', R['J'], 2, 3, True], ['apply', R['K'], 1, 2, True], ['apply', R['C'], 0, 3, True], ['apply', R['H'], 3, 4, True]]]
     if tier != 'quick':
         for (s, e) in explore.ranges(3):
             hs.append([['rainbow', 'aba'], ['apply', R['W'], s, e, False]])
@@ -534,6 +544,23 @@ def run_task(task, acc):
                 except Exception as e:  # noqa
                     acc.violation('inconsistent-after-success', case, 'state unreadable: %s' % e, sig='inconsistent:' + op[0])
                     continue
+                # read transparency: the same operation after every kind of query must lead to the same observable value
+                # (an answer remembered by a query must not survive the mutation that invalidates it)
+                try:
+                    w2 = build(hh + [['read'], op])
+                    if model.observe(w2) != model.observe(w):
+                        acc.violation('read-changes-future', {'kind': 'read', 'hist': hh, 'op': op},
+                                      'after %r the value is %s, but %s when it has been read (str, to_str, flags, queries) before'
+                                      % (op, model.describe_obs(model.observe(w)), model.describe_obs(model.observe(w2))),
+                                      sig='read-changes-future:' + op[0])
+                        continue
+                except env.HarnessError:
+                    raise
+                except Exception as e:  # noqa
+                    acc.violation('read-changes-future', {'kind': 'read', 'hist': hh, 'op': op},
+                                  'after %r: reading before the operation makes it raise %s: %s' % (op, type(e).__name__, e),
+                                  sig='read-changes-future:' + op[0])
+                    continue
                 if ch in seen:
                     acc.validated += 1
                     continue
@@ -552,6 +579,12 @@ def run_task(task, acc):
 
 
 def replay(case):
+    if case['kind'] == 'read':
+        try:
+            w, w2 = build(case['hist'] + [case['op']]), build(case['hist'] + [['read'], case['op']])
+            return [] if model.observe(w) == model.observe(w2) else [('read-changes-future', 'differs')]
+        except Exception as e:  # noqa
+            return [('read-changes-future', '%s: %s' % (type(e).__name__, e))]
     if case['kind'] == 'call':
         name, jargs, kwargs = case['call']
         args = unjson(jargs)
